@@ -51,7 +51,10 @@ def run(ctx):
         traces = list(ex.map(harness, jobs))
     res = _genlib.parallel_trace(ctx, SPEC, CFG, traces, workers=4)
     if not ctx.quick:
-        self_test(ctx, traces[0])
+        # a dedicated seeded trace (both samplers, small draws) is corrupted for the binding self-test
+        stp = ctx.path("samp_selftest.ndjson")
+        ctx.harness("vh-gen", ["samplers", "--seeded", 160, "--draws", 500, "--salt", 99, "--out", stp])
+        self_test(ctx, stp)
     finish(ctx, traces, res, nvec)
 
 
@@ -109,7 +112,7 @@ def finish(ctx, traces, res, nvec):
 
 
 def self_test(ctx, trace):
-    recs = _genlib.split_cases(trace, 1200)
+    recs = _genlib.split_cases(trace, 2000)
 
     def foreign_id(rs):
         for r in rs:
